@@ -122,7 +122,7 @@ BOOL_OPS = {'LT', 'EQ', 'NOT', 'AND', 'OR', 'IN', 'IS', 'ISINSTANCE', 'BOOL', 'V
 POINT_OPS = {'PT', 'PT_ADD', 'PARSE_PT', 'PARSE_PT_UNVALIDATED'}
 
 
-def type_of(t):
+def type_of(t, _depth=0):
     """Return 'int','bytes','str','bool','none','list','tuple','dict','obj:<cls>','point',... or None."""
     k = tag(t)
     if k == 'const':
@@ -182,12 +182,18 @@ def type_of(t):
         if n == 'STREAM':
             return 'stream'
     if k == 'phi':
-        a, b = type_of(t[2]), type_of(t[3])
-        if a == b:
-            return a
+        # bounded: look through at most a few levels of alternatives (Phi DAGs can be huge)
+        if _depth > 5:
+            return None
         if tag(t[2]) == 'raise':
-            return b
+            return type_of(t[3], _depth + 1)
         if tag(t[3]) == 'raise':
+            return type_of(t[2], _depth + 1)
+        a = type_of(t[2], _depth + 1)
+        if a is None:
+            return None
+        b = type_of(t[3], _depth + 1)
+        if a == b:
             return a
     return None
 
@@ -840,7 +846,17 @@ def or_(a, b):
     return ('op', 'OR') + tuple(seen)
 
 
+class BudgetExceeded(Exception):
+    pass
+
+
+PHI_BUDGET = [0, 4000000]      # [constructed so far, limit]; reset per Evaluator
+
+
 def phi(c, a, b):
+    PHI_BUDGET[0] += 1
+    if PHI_BUDGET[0] > PHI_BUDGET[1]:
+        raise BudgetExceeded('term budget exceeded (%d Phi constructions): the value is too branchy to evaluate' % PHI_BUDGET[1])
     if c == TRUE:
         return a
     if c == FALSE:
